@@ -1,4 +1,6 @@
 ''' C04 - TCPCL endpoints only emit RFC 9174-legal message sequences. '''
+from hypothesis import strategies as st
+
 from vlib import boot
 from vlib.engine import Outcome
 
@@ -31,7 +33,8 @@ def budgets(tier):
 
 def strategy(tier):
     from vlib import tcpcl_machine as tm
-    return tm.cases(max_ops=14 if tier == 'quick' else 24, terminate=True)
+    free = tm.cases(max_ops=14 if tier == 'quick' else 24, terminate=True, keepalive=True)
+    return st.one_of(free, free, free, tm.timer_midmessage_cases(terminate=True))
 
 
 def enumerate_cases(tier):
